@@ -191,6 +191,8 @@ def run_chunk(binary, profile, faults, base, count, outdir, deny, samples, mode=
 
             elif line.startswith('SAMPLE '):
                 f = line.split(' ', 2); events.append(('S', int(f[1]), f[2]))
+            elif line.startswith('STATES '):
+                events.append(('STATES', int(line.split()[1])))
             elif line.startswith('STATS '):
                 events.append(('STATS', json.loads(line[6:])))
         if p.returncode == 3:   # stopped after a violation: carry on with the next seed
@@ -605,6 +607,13 @@ def main():
     build(('simC',) if prop == 'C20' else ('simH',))
     t_built = time.time()
     binary = os.path.join(BUILD, 'simC' if prop == 'C20' else 'simH')
+    wide_failed = os.path.join(BUILD, 'wide_failed.txt')
+    wide_violation = None
+    if prop == 'C09' and os.path.exists(wide_failed):
+        # the generated family "one mock function per arity 0..15, every passing mode" is legal user code; headers that
+        # cannot compile it break C09's "for every arity from 0 to 15" (the other checks run with a stub in its place)
+        os.makedirs(os.path.join(ROOT, 'replays', prop), exist_ok=True)
+        wide_violation = os.path.join(ROOT, 'replays', prop, 'wide-family-does-not-compile.replay')
     global CURRENT_PROP
     CURRENT_PROP = prop
     budget = args.budget if args.budget is not None else BUDGET_S[tier]
@@ -665,6 +674,8 @@ def main():
             elif e[0] == 'S':
                 if len(res.samples) < 3:
                     res.samples.append(dict(seed=e[1], profile=name, faults=faults, plan=e[2][:1500]))
+            elif e[0] == 'STATES':
+                res.states = getattr(res, 'states', 0) + e[1]
             elif e[0] == 'STATS':
                 add_stats(res.stats, e[1])
             elif e[0] == 'H':
@@ -806,6 +817,15 @@ def main():
 
     for kid, (k, fpath) in sorted(known_hits.items()):
         out_lines.append('KNOWN-FINDING: property=%s %s' % (prop, k['text']))
+    if wide_violation:
+        os.makedirs(os.path.dirname(wide_violation), exist_ok=True)
+        with open(wide_violation, 'w') as f:
+            f.write('# trompeloeil deterministic-simulation replay file v1\nbinary (compile time)\nproperty C09\noracle wide_family_compiles\n'
+                    'violation the generated mock family (arity 0..15, every passing mode in every clause kind) does not compile against the current headers\n'
+                    '# reproduce: make -C %s B=%s VERIF_REPO=%s %s/H/wide.o ; the compiler said:\n' % (ROOT, BUILD, REPO, BUILD) + ''.join('# ' + l for l in open(wide_failed)))
+        out_lines.append('VIOLATION property=%s replay=%s' % (prop, wide_violation))
+        log('violation: the wide mock family does not compile: ' + open(wide_failed).read()[:800])
+        exit_code = 1; reported += 1
 
     wall = time.time() - t_start
     sim_s = max(t_sim - t_built, 1e-9)
@@ -828,6 +848,7 @@ def main():
             'samples': res.samples or [{'note': 'no sample captured'}],
             'nontrivial_runs': res.nontrivial,
             'deep_configuration_runs': getattr(res, 'deep_runs', 0),
+            'distinct_model_states': {'count': getattr(res, 'states', 0), 'measure': 'distinct hashes of the reference-model state after a top-level operation, counted per worker batch and summed over the batches (an upper bound on the number of globally distinct states)'},
             'operations_executed': sum(st.get('ops', {}).values()) + st.get('nested_ops', 0),
             'operations_by_kind': st.get('ops', {}),
             'simulated_time': {'unit': 'scheduler decisions / operation steps (the library has no clock; none is invented)', 'steps': res.ops},
